@@ -426,15 +426,30 @@ def batt_cases(ctx, n_sys, faults):
             except Exception:
                 pass
 
+        r1 = rng.random()
+        if r1 < 0.08:
+            cutoff = v0 * rng.choice([1.0, 1.2])      # the probed battery is already at / below the cut-off: nothing is solved or stepped
+        elif r1 < 0.12:
+            cap0 = 0.0                                # ... or already empty
+        batref = bat
+        brail = s._g.attrs["rails"].get(bat, "")
+        if brail and rng.random() < 0.5:
+            batref = brail                            # the battery addressed through its rail name
+        if rng.random() < 0.25:
+            try:
+                s = roundtrip(s)                      # ... on a system that was saved and loaded again
+            except Exception:
+                pass
+
         def fresh():
-            return drv_batt.numeric_model(kind, cap0, v0, r0, rng)
+            return drv_batt.numeric_model(kind, cap0 if cap0 > 0 else 1e-300, v0, r0, rng) if cap0 > 0 else _dead_model(v0, r0)
         variants = [None]
         if faults:
             variants += [("probe", 1), ("deplete", 1), ("deplete", rng.randint(2, 4)), ("solve", rng.randint(1, 3))]
         for f in variants:
             p, d = fresh()
             sc = copy_system(s)
-            cases.append(drv_batt.run_batt(sc, bat, cutoff, p, d, len(cases), fail_at=f,
+            cases.append(drv_batt.run_batt(sc, batref, cutoff, p, d, len(cases), fail_at=f,
                                            ref_every=(1 if phases else 97)))
         # a scripted model: TLC-style monotone sequence ending dead by capacity or by voltage
         k = rng.randint(1, 6)
@@ -448,6 +463,16 @@ def batt_cases(ctx, n_sys, faults):
             p, d = fresh()
             cases.append(drv_batt.run_batt(copy_system(s), nm, cutoff, p, d, len(cases)))
     return cases
+
+
+def _dead_model(v0, r0):
+    """a battery that is empty when probed"""
+    def pfunc():
+        return (0.0, v0, r0)
+
+    def dfunc(dt, i):
+        return (0.0, v0, r0)
+    return pfunc, dfunc
 
 
 def copy_system(s):
